@@ -282,7 +282,7 @@ func genTyped[T any](kind string, cd elem.Codec[T], o *tr.Opts, w *tr.W, r *tr.R
 							if !o.Thorough() && (!r.Chance(1, den) || stage > 3 && kind != "Tt" && r.Bool()) {
 								continue
 							}
-							if o.Thorough() && !r.Chance(1, 8) { // an eighth of the product, buffers up to ~100 slots
+							if o.Thorough() && !r.Chance(1, 12) { // a twelfth of the product, buffers up to ~100 slots
 								continue
 							}
 							var s *sess[T]
